@@ -35,7 +35,7 @@ BOUNDS = {"quick": {"exhaustive_R_P": [3, 2]}, "thorough": {"exhaustive_R_P": [3
 REQUIRED = {"quick": {"flags_checked": 8000, "gate_absent_checked": 1500, "grad_entries_compared": 3000, "differential_compared": 300, "garbage_compared": 300, "exit_code_checked": 94, "history_calls_judged": 500, "infinite_value_cases_judged": 90, "rows_with_both_infinities": 100, "__nontrivial__": 300},
             "thorough": {"flags_checked": 400000, "gate_absent_checked": 80000, "grad_entries_compared": 100000, "differential_compared": 8000, "garbage_compared": 8000, "exit_code_checked": 1906, "history_calls_judged": 12000, "infinite_value_cases_judged": 1800, "rows_with_both_infinities": 2000, "__nontrivial__": 3000}}
 
-VARIANTS = ["mean", "stddev", "mixed_con", "filter_cvar", "filter_sort", "merged"]
+VARIANTS = ["mean", "stddev", "mixed_con", "filter_cvar", "filter_sort", "merged", "zero_weight"]
 
 
 def _base_spec(R, P, variant, rng):
@@ -50,6 +50,9 @@ def _base_spec(R, P, variant, rng):
             "ensemble": {"kind": "affine", "a": rng.normal(size=(R, F, V)).tolist(), "b": rng.normal(size=(R, F)).tolist()}}
     if n_con:
         spec["con_lb"], spec["con_ub"] = [-np.inf], [0.5]
+    if variant == "zero_weight" and R >= 2:
+        # a realization without weight that fails is a failed realization all the same (flags, thresholds, exit codes)
+        spec["rweights"][1] = 0.0
     if variant == "stddev":
         spec["estimators"], spec["omap_est"] = ["mean", "stddev"], [1, 0]
     if variant == "mixed_con":
